@@ -27,7 +27,7 @@ RULE = (
     "across the three interpreter configurations.  Non-trivial = anything but a plain valid list "
     "under the default interpreter: a count >= 2 or == 0, mixed IDs, the empty list, or -O/-OO.")
 ASSUMPTIONS = ['message IDs are distinct', 'each document is individually classifiable']
-MANDATORY = ['flags:-O', 'flags:-OO', 'empty-list', 'two-roCreates', 'two-roDeletes', 'no-roCreate',
+MANDATORY = ['completed-roCreate', 'flags:-O', 'flags:-OO', 'empty-list', 'two-roCreates', 'two-roDeletes', 'no-roCreate',
              'mixed-ids', 'valid-complete', 'valid-incomplete-allowed', 'incomplete-not-allowed',
              'roReplace-present']
 
@@ -49,6 +49,12 @@ FLAGS = {'default': [], '-O': ['-O'], '-OO': ['-OO']}
 
 
 def doc(kind, mid, ro_id):
+    if kind == 'roCreate-completed':
+        # the output of an earlier merge: a roCreate that already carries its completion record
+        from xml.etree import ElementTree as ET
+        root = B.envelope(B.ro_create(ro_id, [gen.plain_story('S0', ['I0']), gen.plain_story('S1')]), mid)
+        root.append(B.E('mosromgrmeta', B.ro_delete(ro_id)))
+        return B.tostring(root)
     if kind == 'roCreate':
         body = B.ro_create(ro_id, [gen.plain_story('S0', ['I0']), gen.plain_story('S1')])
     elif kind == 'roDelete':
@@ -69,9 +75,11 @@ def doc(kind, mid, ro_id):
 OTHERS = ['roStorySend', 'roReplace', 'roStoryMove', 'roElementAction', 'roMetadataReplace']
 
 
-def make_case(nc, nd, no, pattern, ai, perm_seed=0, other_off=0):
+def make_case(nc, nd, no, pattern, ai, perm_seed=0, other_off=0, completed=False):
     """-> case dict or None when the pattern does not apply."""
     kinds = ['roCreate'] * nc + ['roDelete'] * nd + [OTHERS[(i + other_off) % len(OTHERS)] for i in range(no)]
+    if nc and (completed or (perm_seed + other_off + nd + no) % 4 == 3):
+        kinds[0] = 'roCreate-completed'
     ro_ids = ['RO1'] * len(kinds)
     if pattern == 'other-deviates':
         if no == 0:
@@ -105,13 +113,13 @@ def make_case(nc, nd, no, pattern, ai, perm_seed=0, other_off=0):
 def oracle(case):
     meta = case['meta']
     kinds, mids, ro_ids = meta['kinds'], meta['mids'], meta['ro_ids']
-    nc, nd = kinds.count('roCreate'), kinds.count('roDelete')
+    nc, nd = kinds.count('roCreate') + kinds.count('roCreate-completed'), kinds.count('roDelete')
     ok = (len(kinds) > 0 and len(set(ro_ids)) == 1 and nc == 1 and nd <= 1
           and (case['allow_incomplete'] or nd == 1))
     if not ok:
         return ['exc', 'InvalidMosCollection']
-    create = mids[kinds.index('roCreate')]
-    return ['ok', create, sorted(m for m, k in zip(mids, kinds) if k != 'roCreate'), 'RunningOrder']
+    create = mids[[k.startswith('roCreate') for k in kinds].index(True)]
+    return ['ok', create, sorted(m for m, k in zip(mids, kinds) if not k.startswith('roCreate')), 'RunningOrder']
 
 
 def evaluate(cases, flags):
@@ -127,8 +135,10 @@ def evaluate(cases, flags):
 
 def classes_of(case, flags):
     k = case['meta']['kinds']
-    nc, nd = k.count('roCreate'), k.count('roDelete')
+    nc, nd = k.count('roCreate') + k.count('roCreate-completed'), k.count('roDelete')
     cl = [f'flags:{flags}']
+    if 'roCreate-completed' in k:
+        cl.append('completed-roCreate')
     if not k:
         cl.append('empty-list')
     if nc >= 2:
@@ -154,7 +164,7 @@ def judge_outcome(case, flags, got):
     if got == exp:
         return []
     k = case['meta']['kinds']
-    cell = f"creates={min(k.count('roCreate'), 2)},deletes={min(k.count('roDelete'), 2)}," \
+    cell = f"creates={min(k.count('roCreate') + k.count('roCreate-completed'), 2)},deletes={min(k.count('roDelete'), 2)}," \
            f"mixed={len(set(case['meta']['ro_ids'])) > 1},ai={case['allow_incomplete']}"
     if not k:
         cell = 'empty'
@@ -200,6 +210,10 @@ def run(tier, seed, procs):
             c = make_case(nc, nd, no, pat, ai, perm_seed=ps + seed, other_off=ps)
             if c is not None:
                 cases.append(c)
+            if nc == 1 and pat == 'all-equal':
+                c2 = make_case(nc, nd, no, pat, ai, perm_seed=ps + seed, other_off=ps, completed=True)
+                if c2 is not None:
+                    cases.append(c2)
     col.scopes.append(f'collections: 0..{top} roCreates x 0..{top} roDeletes x 0..{top} others x 5 ID patterns '
                       f'x allow_incomplete x 3 interpreter configurations ({len(cases)} lists)')
     # hypothesis: larger multisets
